@@ -212,6 +212,9 @@ def _optimal_chain(prog, rep):
 
 
 def run(prog, rep):
+    if prog.config == "default":
+        from .C01 import _witness
+        _witness(prog, rep, ["W2Ok", "W2Fail", "W3Fail"], "C06.R1", "result slices are tied to the fragments slice and fragments cannot be constructed generically")
     guarded(rep, "C06.R1", "crate::core::Fragment", lambda: _sig_rule(prog, rep))
     guarded(rep, "C06.R2", "crate::wrap_algorithms::wrap_first_fit", lambda: _first_fit_chain(prog, rep))
     if has_feature(prog, "smawk"):
